@@ -319,3 +319,59 @@ Theorem C11_bfi_premises_satisfiable :
   BfiDefs.blen (BfiDefs.enc (BfiDefs.c_vec BfiDefs.c_bytes) v) = 261%N.
 Proof. exact BfiProofs.vec_bytes_nontrivial. Qed.
 Print Assumptions C11_bfi_premises_satisfiable.
+
+(** BFI wire types of transaction.hpp / block.hpp (coq/Bfi/BfiWire.v). [wf_tx allow] carries the two facts the
+    format itself imposes: with witnesses allowed a transaction without inputs round-trips only without outputs
+    (an empty vin is read as the extended-format marker; C11_bfi_tx_empty_vin_with_output_refuted), and under
+    SERIALIZE_TRANSACTION_NO_WITNESS the witness stacks are not written. *)
+From VB Require Bfi.BfiWire.
+
+Theorem C11_bfi_OutPoint : BfiDefs.codec_ok BfiDefs.c_outpoint BfiDefs.wf_outpoint.
+Proof. exact BfiWire.outpoint_ok. Qed.
+Print Assumptions C11_bfi_OutPoint.
+
+Theorem C11_bfi_TxIn : BfiDefs.codec_ok BfiDefs.c_txin BfiDefs.wf_txin.
+Proof. exact BfiWire.txin_ok. Qed.
+Print Assumptions C11_bfi_TxIn.
+
+Theorem C11_bfi_TxOut : BfiDefs.codec_ok BfiDefs.c_txout BfiDefs.wf_txout.
+Proof. exact BfiWire.txout_ok. Qed.
+Print Assumptions C11_bfi_TxOut.
+
+Theorem C11_bfi_ScriptWitness : BfiDefs.codec_ok BfiDefs.c_wstack BfiDefs.wf_wstack.
+Proof. exact BfiWire.wstack_ok. Qed.
+Print Assumptions C11_bfi_ScriptWitness.
+
+Theorem C11_bfi_Transaction : forall allow_witness,
+  BfiDefs.codec_ok (BfiDefs.c_tx allow_witness) (BfiDefs.wf_tx allow_witness).
+Proof. exact BfiWire.tx_ok. Qed.
+Print Assumptions C11_bfi_Transaction.
+
+Theorem C11_bfi_BlockHeader : BfiDefs.codec_ok BfiDefs.c_header BfiDefs.wf_header.
+Proof. exact BfiWire.header_ok. Qed.
+Print Assumptions C11_bfi_BlockHeader.
+
+Theorem C11_bfi_Block : forall allow_witness,
+  BfiDefs.codec_ok (BfiDefs.c_block allow_witness) (BfiDefs.wf_block allow_witness).
+Proof. exact BfiWire.block_ok. Qed.
+Print Assumptions C11_bfi_Block.
+
+Theorem C11_bfi_tx_empty_vin_with_output_refuted :
+  let t := BfiDefs.mk_tx nil (BfiDefs.mk_txout 1%Z nil :: nil) 1%Z 0%N in
+  BfiDefs.dec_tx true (BfiDefs.enc_tx true t) <> BfiDefs.Ok t nil /\
+  BfiDefs.dec_tx false (BfiDefs.enc_tx false t) = BfiDefs.Ok t nil.
+Proof. exact BfiWire.tx_empty_vin_with_output_refuted. Qed.
+Print Assumptions C11_bfi_tx_empty_vin_with_output_refuted.
+
+Theorem C11_bfi_tx_premises_satisfiable :
+  let o := BfiDefs.mk_outpoint (List.repeat Byte.x11 32) 1%N in
+  let tw := BfiDefs.mk_tx (BfiDefs.mk_txin o (Byte.xaa :: nil) 4294967295%N ((Byte.xff :: Byte.x4c :: nil) :: nil :: nil)
+                           :: BfiDefs.mk_txin o nil 0%N nil :: nil)
+                          (BfiDefs.mk_txout (-5)%Z (Byte.xbb :: nil) :: nil) 2%Z 7%N in
+  let tp := BfiDefs.mk_tx (BfiDefs.mk_txin o (Byte.xaa :: nil) 4294967295%N nil :: nil)
+                          (BfiDefs.mk_txout 4999990000%Z (List.repeat Byte.xcc 253) :: nil) 1%Z 0%N in
+  BfiDefs.wf_tx true tw /\ BfiDefs.wf_tx true tp /\ BfiDefs.wf_tx false tp /\
+  BfiDefs.dec_tx true (BfiDefs.enc_tx true tw ++ Byte.x01 :: nil) = BfiDefs.Ok tw (Byte.x01 :: nil) /\
+  BfiDefs.enc_tx true tp = BfiDefs.enc_tx false tp.
+Proof. exact BfiWire.tx_nontrivial. Qed.
+Print Assumptions C11_bfi_tx_premises_satisfiable.
